@@ -41,6 +41,10 @@ type Modules struct {
 	// that a grouping that (directly or indirectly) uses itself is detected
 	// instead of recursing forever. Protected by entryCacheMu.
 	entryInProgress map[Node]bool
+	// definedLater holds the groupings whose definitions ToEntry has met
+	// while a grouping was being converted, together with the entries that
+	// collect their errors. Protected by entryCacheMu.
+	definedLater []definedGrouping
 	// mergedSubmodule is used to prevent re-parsing a submodule that has already
 	// been merged into a particular entity when circular dependencies are being
 	// ignored. The keys of the map are a string that is formed by concatenating
@@ -560,6 +564,44 @@ func (ms *Modules) enterEntry(n Node) bool {
 	}
 	ms.entryInProgress[n] = true
 	return true
+}
+
+// definedGrouping is a grouping defined in the statement an entry was made
+// from.
+type definedGrouping struct {
+	in *Entry
+	g  *Grouping
+}
+
+// deferDefined notes that g is defined in the statement e is being made from.
+func (ms *Modules) deferDefined(e *Entry, g *Grouping) {
+	ms.entryCacheMu.Lock()
+	defer ms.entryCacheMu.Unlock()
+	ms.definedLater = append(ms.definedLater, definedGrouping{e, g})
+}
+
+// convertDefined converts the groupings noted by deferDefined, for the sake of
+// the errors in them, once no grouping is being converted any more. A
+// definition is not a use: a grouping defined inside a grouping g (at any
+// depth) may use g without g using itself, which is what converting it while
+// g is under way would report.
+func (ms *Modules) convertDefined() {
+	for d, ok := ms.nextDefined(); ok; d, ok = ms.nextDefined() {
+		d.in.importErrors(ToEntry(d.g))
+	}
+}
+
+// nextDefined takes the next grouping noted by deferDefined off the list,
+// unless a grouping is still being converted.
+func (ms *Modules) nextDefined() (d definedGrouping, ok bool) {
+	ms.entryCacheMu.Lock()
+	defer ms.entryCacheMu.Unlock()
+	if len(ms.entryInProgress) > 0 || len(ms.definedLater) == 0 {
+		return d, false
+	}
+	d = ms.definedLater[0]
+	ms.definedLater = ms.definedLater[1:]
+	return d, true
 }
 
 // leaveEntry records that the conversion of n has ended.
